@@ -263,6 +263,27 @@ func c06Bulk(t testing.TB, env vfEnvT, workers, wi, shard, nShards int) *c06Bulk
 		})
 	}
 	res.Stats["wall_ms_phase2_max"] = time.Since(t0).Milliseconds()
+	t0 = time.Now()
+	// ---- phase 3: hosts taken from the instances' own configuration as redirect targets (c06_confighosts.go): the ordinary
+	// instances (IdP and upstream on 127.0.0.1:<port>) and the configuration-rich ones (named IdP host, redirect-url, cookie
+	// domains, second upstream, redis), every template through every cheap channel, the core forms through the login channels
+	if err := cx.Rotate(t); err != nil {
+		t.Fatalf("c06: building login instances for whitelist %v: %v", cx.WL.Entries, err)
+	}
+	c06CfgPhase(cx, acc, workers, shard, nShards, nil)
+	rx, err := c06NewCtxV(w0, c06WLs[wi], true)
+	if err == nil {
+		err = rx.Rotate(t)
+	}
+	if err != nil {
+		t.Fatalf("c06: building the configuration-rich instances for whitelist %v: %v", c06WLs[wi].Entries, err)
+	}
+	defer rx.Close()
+	if n := len(c06CfgHostsOf(rx.A)); n < 8 || n > c06CfgMaxHosts {
+		t.Fatalf("c06: the configuration-rich instance yields %d configuration hosts (expected 8..%d): %v", n, c06CfgMaxHosts, c06CfgHostsOf(rx.A))
+	}
+	c06CfgPhase(rx, acc, workers, shard, nShards, nil)
+	res.Stats["wall_ms_phase3_config_hosts_max"] = time.Since(t0).Milliseconds()
 	return res
 }
 
@@ -364,6 +385,8 @@ func TestVerif_C06(t *testing.T) {
 		"phase 2: every short string (<=2/<=3 tokens), the list, and every string phase 1 saw kept or that a browser would resolve off-origin if echoed (big thorough sub-spaces carried at 1/64) " +
 		"through 26 more channels (X-Auth-Request-Redirect on sign_out/start, rd on start->IdP->callback with plain and base64 state, state edited at the callback, X-Forwarded-Proto/Host/Uri in reverse-proxy mode, htpasswd form login, " +
 		"sign-in / error / 403 pages parsed with x/net/html, protected URL and sign_in with skip-provider-button, failed callbacks carrying a forged state in 5 failure modes x plain/base64); short strings under all configurations, carried ones under 1/3 chosen by hash (an absolute URL always under the configuration that keeps it); login channels on a sample; " +
+		"phase 3: every host that occurs in an instance's own configuration (IdP issuer/login/redeem/JWKS/profile/validate, upstreams, redis, --redirect-url, cookie domains; read from the instance's flags) x 35 target forms (http/https/scheme-relative, with/without/other port, userinfo, backslash, case, trailing dot, sub-domain) " +
+		"through every cheap channel and (8 core forms) every login channel, under all 8 whitelist configurations, for the ordinary instances (IdP and upstream on 127.0.0.1:port) and for configuration-rich ones (static endpoints with a NAMED authorization host, redirect-url, two cookie domains, second upstream, redis store); " +
 		"plus a pass of all channels in the race build, the same requests over a real connection (Location as transmitted), and the fidelity clause on 200/3000 safe URIs plus paths sharing the proxy prefix as a string, x 7 routes x proxy prefixes /oauth2, /auth, /a. " +
 		"cell = (channel, whitelist kind, leading class x backslash x whitespace/control x userinfo x port x non-ASCII x escape); non-trivial = the proxy kept the string or a browser would leave the origin if it were echoed verbatim")
 	run.Assume("browsers follow the WHATWG URL Standard (BrowserURL is self-tested against the standard's examples at the start of the run)",
@@ -418,6 +441,8 @@ func TestVerif_C06(t *testing.T) {
 	for _, r := range c06FidelityRoutes {
 		musts = append(musts, "fidelity_ok["+r+"]")
 	}
+	musts = append(musts, "cfg_targets_driven[ip-port-instances]", "cfg_targets_driven[named-host-instances]", "cfg_targets_kept", "cfg_logins_completed[ip-port-instances]", "cfg_logins_completed[named-host-instances]",
+		"cfg_host_source[--oidc-issuer-url]", "cfg_host_source[--login-url]", "cfg_host_source[--upstream]", "cfg_host_source[--redirect-url]", "cfg_host_source[--cookie-domain]", "cfg_host_source[--redis-connection-url]")
 	musts = append(musts, "fidelity_prefix_sharing_uris", "fidelity_custom_prefix_uris", "fidelity_long_uris", "ch_conc:so-rd", "ch_conc:form-rd", "ch_conc:so-xarr", "ch_conc:start-rd")
 	for _, ch := range []string{"so-rd", "so-xarr", "form-rd", "page-error", "xf-so", "page-403", "cb-state"} {
 		musts = append(musts, "kept_wire:"+ch)
@@ -460,6 +485,13 @@ func c06RacePass(run *vfRun, w0 *vfWorld) {
 	sort.Strings(interesting)
 	wire := append([]string{}, set...)
 	wire = append(wire, interesting...)
+	// configuration-host templates (not on the wire: they are made concrete per instance inside drive): the core forms for
+	// the first hosts of the ordinary instances
+	for k := 0; k < 2; k++ {
+		for _, f := range c06CfgForms[:c06CfgCoreForms] {
+			set = append(set, c06CfgTemplate(k, f))
+		}
+	}
 	run.Extra("race_pass_strings", len(set))
 	run.Extra("wire_pass_strings", len(wire))
 	acc := c06NewAcc()
@@ -563,7 +595,7 @@ func (cx *c06Ctx) wireCompare(a *c06Acc, in string) (n, diff int64) {
 	}
 	// the callback over the wire: state edited, plain
 	if s, err := cx.startLogin(cx.A, c06HostA, false); err == nil {
-		if code, _, err := cx.A.W.IdP.Authorize(s.LoginURL, vfStdIdentity); err == nil {
+		if code, _, err := c06Authorize(cx.A, s.LoginURL); err == nil {
 			cb := vfGET("/oauth2/callback?code="+vfQueryEscape(code)+"&state="+vfQueryEscape(s.Nonce+":"+in), "Cookie", s.Cookie)
 			wr := cx.A.Wire(cb)
 			if wr.Err == "" {
@@ -773,6 +805,9 @@ func c06Replay(run *vfRun) {
 	if err != nil {
 		run.T.Fatalf("c06 replay: input %s: %v", wit.Detail.Input, err)
 	}
+	if wit.Detail.Template != "" {
+		in = wit.Detail.Template // a configuration-host target: made concrete for the instances of this run
+	}
 	ch := wit.Detail.Channel
 	if strings.HasPrefix(ch, "fidelity:") {
 		run.T.Fatalf("c06 replay: fidelity witnesses are replayed by running the check with the same seed (input %s)", wit.Detail.Input)
@@ -783,7 +818,11 @@ func c06Replay(run *vfRun) {
 		if wl.Kind != wit.Detail.WL {
 			continue
 		}
-		cx, err := c06NewCtx(w0, wl)
+		rich := false
+		for _, f := range wit.Detail.Flags {
+			rich = rich || strings.HasPrefix(f, "--login-url=")
+		}
+		cx, err := c06NewCtxV(w0, wl, rich)
 		if err != nil {
 			run.T.Fatalf("c06 replay: %v", err)
 		}
